@@ -101,6 +101,24 @@ extern int64_t cmb_resourceguard_wait(struct cmb_resourceguard *rgp,
                                       const void *ctx);
 
 /**
+ * @brief  As `cmb_resourceguard_wait()`, for a process that has been waiting
+ *         since the earlier time `since` and has to queue up again within the
+ *         same call, e.g. because it was woken but someone else got to the
+ *         resource first. It is ordered among equal priorities as waiting since
+ *         `since`, not since now.
+ *
+ * @memberof cmb_resourceguard
+ * @param rgp Pointer to a resource guard.
+ * @param demand Pointer to the demand predicate function
+ * @param ctx The context argument to the demand predicate function.
+ * @param since The time at which the calling process started waiting.
+ */
+extern int64_t cmb_resourceguard_wait_since(struct cmb_resourceguard *rgp,
+                                            cmb_resourceguard_demand_func *demand,
+                                            const void *ctx,
+                                            double since);
+
+/**
  * @brief  Ring the bell for a resource guard to check if any of the waiting
  *         processes should be resumed. Will evaluate the demand function for
  *         the first process in the queue, if any, and will resume it if
